@@ -83,6 +83,10 @@ KINDS = {
                                                               "c": {"type": "array", "items": {"type": "string"}}},
                             "required": ["t", "c"]},
                            {"type": "object", "properties": {"t": {"type": "string", "enum": ["U"]}}, "required": ["t"]}]},
+    "adjacent_closed": {"oneOf": [{"type": "object", "properties": {"t": {"type": "string", "enum": ["A"]}, "c": {"type": "integer"}},
+                                   "required": ["t", "c"], "additionalProperties": False},
+                                  {"type": "object", "properties": {"t": {"type": "string", "enum": ["U"]}}, "required": ["t"],
+                                   "additionalProperties": False}]},
     "untagged": {"oneOf": [{"type": "integer"}, {"type": "string"},
                            {"type": "object", "properties": {"k": {"type": "boolean"}}, "required": ["k"]}]},
     "boxed": {"$ref": "#/definitions/Tree"},
@@ -111,6 +115,7 @@ HAND_VALUES = {
     "struct_renamed_flat_str": [{"displayName": "anon", "a-b": "c"}, {"displayName": "anon", "zz": "y"}],
     "enum_ref": ["Blue"], "external": ["Unit", {"N": 5}, {"S": {"x": 1}}, {"S": {"x": 1, "y": "z"}}, {"T": [1, True]}],
     "internal": [{"t": "A", "x": 3}, {"t": "B"}], "adjacent": [{"t": "A", "c": 4}, {"t": "B", "c": ["q"]}, {"t": "U"}],
+    "adjacent_closed": [{"t": "A", "c": 4}, {"t": "U"}],
     "untagged": [5, "five", {"k": True}], "boxed": [{"n": 1}, {"n": 1, "kid": {"n": 2}}], "unit": [None],
     "any": [None, 1, "s", [1, {"a": None}], {"k": 1.5}],
 }
@@ -128,6 +133,7 @@ BAD_VALUES = {   # violations of represented constraints (or of the integer rang
     "struct_renamed_flat_str": [{"displayName": 5}], "struct_ref": [{"s": "only"}], "enum_ref": ["blue"],
     "external": ["Nope", {"N": "x"}, {"S": {}}, {"T": [1]}, {"N": 1, "S": {"x": 1}}],
     "internal": [{"t": "C"}, {"t": "A"}, {"x": 3}], "adjacent": [{"t": "A"}, {"t": "A", "c": "x"}, {"t": "Z", "c": 1}],
+    "adjacent_closed": [{"t": "A", "c": 4, "zz": 1}, {"t": "U", "zz": 1}, {"t": "U", "c": 1}],
     "untagged": [1.5, None, {"k": 1}], "boxed": [{"kid": {"n": 1}}, {"n": 1, "kid": {}}], "unit": [0, "null"],
     "uuid": ["not-a-uuid", 5], "date": ["2020-13-40", 5], "datetime": ["yesterday"], "ip": ["300.1.1.1"], "ipv4": ["::1"],
 }
